@@ -47,6 +47,12 @@ let () = Reg.register "c06.min" (fun inp out ->
           let (o2, c2) = Run.run fuel m2 st e2 eoff toks in
           o1 = o2 && trace_rel key c1.c_trace c2.c_trace) (lst strs)
       | _ -> failwith "inputs") (lst inputs) in
+    (* the hypothesis of the generator theorem (Props/C06.v, C06_minimize_passes_check) holds for what lalr.Compile
+       hands to minimize; tables with LALR(k) rows are outside it *)
+    let wf = MinimizeWf.wf_min_input mi rule_sym terms ninputs in
+    let has_deep = Stdlib.List.exists (fun s -> Stdlib.List.exists (fun a -> Run.lalr_deep mi.mi_enc s a) (Optimize.zseq terms))
+                     (Optimize.zseq mi.mi_num_states) in
     (model, if not runs_ok then "bad:minimized-parser-behaves-differently"
-            else if not cert_ok then "bad:quotient-certificate-rejected" else "ok")
+            else if not cert_ok then "bad:quotient-certificate-rejected"
+            else if not wf && not has_deep then "bad:minimize-input-not-wellformed" else "ok")
   | _ -> failwith "c06.min")
